@@ -147,7 +147,9 @@ Definition caret_up_c (t : term) (n : Z) : res term * cost :=
   (limit_caret_pos (fst r), cadd (mkCost 1 1 0) (snd r)).
 (* REP: the weight of one print_char is 1 plus the scroll an auto-wrap may trigger when margins are set *)
 Definition print_weight (t : term) : Z := 1 + (if needs_scrolling t then snd (scroll_up_t t) else 0).
-Definition rep_c (t : term) (c : cell) (n : Z) := iter_cost_res n (fun x => print_char x c) print_weight t.
+Definition rep_c (t : term) (c : cell) (n : Z) := iter_cost_res (Z.min n (rep_limit t)) (fun x => print_char x c) print_weight t.
+(* the code before the fix: one print_char per count *)
+Definition rep_c_before_fix (t : term) (c : cell) (n : Z) := iter_cost_res n (fun x => print_char x c) print_weight t.
 
 (* ---- one CSI final byte (no intermediate): outcome and cost ----------------------------------------------------------------------- *)
 Definition out_grow (t : term) (o : outcome) : Z := match o with OOk m | OErr m | ODeep m => grow t (tm m) | OPanic _ => 0 end.
@@ -226,8 +228,6 @@ Definition csi_sp_c (t : term) (p : pst) (ch : Z) : outcome * cost :=
   else if ch =? 100 then (match nums p with [n] => ok (remove_tab_stop t (n - 1)) d | _ => err t d end, mkCost 1 1 0)
   else (err t d, mkCost 1 1 0).
 
-(* the known class of this dispatcher: REP with a count beyond the screen *)
-Definition KnownC03_rep (t : term) (p : pst) (ch : Z) : Prop := ch = 98 /\ tw t * th t < first_or (nums p) 1.
 
 (* ---- rectangular-area operations: cells visited (the area is clamped by get_rect_area) ------------------------------------------------ *)
 Definition rect_ticks (t : term) (a b c d : Z) : Z :=
@@ -238,13 +238,18 @@ Definition window_ticks (w : Z) : Z := 1 + zlen (reset_tabs (Z.max (Z.min w 132)
 
 (* ---- DCS: parse_hex_macro_sequence with counters (characters read + characters appended by repeat groups) --------------------------------- *)
 Definition repeat_cost (n : Z) (s : list Z) : Z := Z.max 0 n * zlen s.
+(* characters appended by a group: nothing when push_repeat_group refuses it *)
+Definition group_cost (rec rep_rec : list Z) (rep_n : Z) : Z := match push_group rec rep_rec rep_n with Some _ => repeat_cost rep_n rep_rec | None => 0 end.
 Fixpoint hex_macro_t (s : list Z) (stt : hexst) (read_repeat : bool) (rep_rec : list Z) (rep_n : Z) (rec : list Z) (k : Z) : option (list Z) * Z :=
   match s with
-  | [] => (Some (if read_repeat then rec ++ repeat_str rep_n rep_rec else rec), if read_repeat then k + repeat_cost rep_n rep_rec else k)
+  | [] => (hex_finish read_repeat rep_rec rep_n rec, if read_repeat then k + group_cost rec rep_rec rep_n else k)
   | ch :: r =>
     match stt with
     | HFirst =>
-      if (ch =? 59) && read_repeat then hex_macro_t r HFirst false rep_rec rep_n (rec ++ repeat_str rep_n rep_rec) (k + 1 + repeat_cost rep_n rep_rec)
+      if (ch =? 59) && read_repeat then match push_group rec rep_rec rep_n with
+                                        | Some rec' => hex_macro_t r HFirst false rep_rec rep_n rec' (k + 1 + repeat_cost rep_n rep_rec)
+                                        | None => (None, k + 1)          (* refused before anything is appended *)
+                                        end
       else if ch =? 33 then hex_macro_t r (HRepeat 0) read_repeat rep_rec rep_n rec (k + 1)
       else hex_macro_t r (HSecond ch) read_repeat rep_rec rep_n rec (k + 1)
     | HSecond f =>
@@ -257,6 +262,29 @@ Fixpoint hex_macro_t (s : list Z) (stt : hexst) (read_repeat : bool) (rep_rec : 
     | HRepeat n =>
       if is_digit ch then hex_macro_t r (HRepeat (parse_next_number n ch)) read_repeat rep_rec rep_n rec (k + 1)
       else if ch =? 59 then hex_macro_t r HFirst true [] n rec (k + 1)
+      else (None, k + 1)
+    end
+  end.
+(* the parser BEFORE the fix (no size limit): every group is expanded whatever its count *)
+Fixpoint hex_macro_t_before_fix (s : list Z) (stt : hexst) (read_repeat : bool) (rep_rec : list Z) (rep_n : Z) (rec : list Z) (k : Z) : option (list Z) * Z :=
+  match s with
+  | [] => (Some (if read_repeat then rec ++ repeat_str rep_n rep_rec else rec), if read_repeat then k + repeat_cost rep_n rep_rec else k)
+  | ch :: r =>
+    match stt with
+    | HFirst =>
+      if (ch =? 59) && read_repeat then hex_macro_t_before_fix r HFirst false rep_rec rep_n (rec ++ repeat_str rep_n rep_rec) (k + 1 + repeat_cost rep_n rep_rec)
+      else if ch =? 33 then hex_macro_t_before_fix r (HRepeat 0) read_repeat rep_rec rep_n rec (k + 1)
+      else hex_macro_t_before_fix r (HSecond ch) read_repeat rep_rec rep_n rec (k + 1)
+    | HSecond f =>
+      match hex_val f, hex_val (to_upper ch) with
+      | Some a, Some b => let cc := a * 16 + b in
+                          if read_repeat then hex_macro_t_before_fix r HFirst read_repeat (rep_rec ++ [cc]) rep_n rec (k + 1)
+                          else hex_macro_t_before_fix r HFirst read_repeat rep_rec rep_n (rec ++ [cc]) (k + 1)
+      | _, _ => (None, k + 1)
+      end
+    | HRepeat n =>
+      if is_digit ch then hex_macro_t_before_fix r (HRepeat (parse_next_number n ch)) read_repeat rep_rec rep_n rec (k + 1)
+      else if ch =? 59 then hex_macro_t_before_fix r HFirst true [] n rec (k + 1)
       else (None, k + 1)
     end
   end.
